@@ -15,8 +15,10 @@ import (
 // compiles the split form too (calibration).
 
 type pkgSplit struct {
-	lib map[string]bool // names of moved functions ("f0", "T0.M1"), struct types, interfaces, named types
-	cur string          // package being printed
+	lib  map[string]bool // names of moved functions ("f0", "T0.M1"), struct types, interfaces, named types
+	vars map[string]bool // package-level variables that moved (they are mentioned by moved functions only)
+	path string          // import path of the new package ("lib", "app/lib", "x/y/lib"); its name is the last element
+	cur  string          // package being printed
 }
 
 var splitMu sync.Mutex
@@ -161,7 +163,9 @@ func funcMentions(f *Func) (fns, types, vars map[string]bool) {
 		case "call", "fnval":
 			fns[e.Fn] = true
 		case "var":
-			vars[e.Name] = true
+			if e.Global {
+				vars[e.Name] = true
+			}
 		case "new":
 			types[e.Sty] = true
 		case "choice":
@@ -176,12 +180,24 @@ func (p *Prog) chooseSplit(r *rand.Rand) *pkgSplit {
 	if p.NeedChoice || len(p.Inits) > 0 {
 		return nil
 	}
-	globals := map[string]bool{}
+	resolveGlobals(p)
+	globals := map[string]*S{}
 	for _, g := range p.Globals {
 		for _, n := range g.Names {
-			globals[n] = true
+			globals[n] = g
 		}
 	}
+	// which functions mention which package-level variable (by name)
+	mentionedBy := map[string][]string{}
+	for _, f := range p.Funcs {
+		_, _, vs := funcMentions(f)
+		for v := range vs {
+			if globals[v] != nil {
+				mentionedBy[v] = append(mentionedBy[v], f.Name)
+			}
+		}
+	}
+	libVars := map[string]bool{}
 	byName := map[string]*Func{}
 	methodsOf := map[string][]*Func{}
 	for _, f := range p.Funcs {
@@ -213,6 +229,18 @@ func (p *Prog) chooseSplit(r *rand.Rand) *pkgSplit {
 		return nil
 	}
 	r.Shuffle(len(cands), func(i, j int) { cands[i], cands[j] = cands[j], cands[i] })
+	if r.Intn(3) > 0 {
+		// prefer functions that mention package-level variables (those then move with them)
+		var with, without []*Func
+		for _, f := range cands {
+			if _, _, vs := funcMentions(f); len(vs) > 0 {
+				with = append(with, f)
+			} else {
+				without = append(without, f)
+			}
+		}
+		cands = append(with, without...)
+	}
 	lib := map[string]bool{}
 	ok := true
 	var addFn func(name string)
@@ -271,9 +299,36 @@ func (p *Prog) chooseSplit(r *rand.Rand) *pkgSplit {
 		lib[name] = true
 		fns, types, vars := funcMentions(f)
 		for v := range vars {
-			if globals[v] || v == "fmt" {
+			if v == "fmt" {
 				ok = false
 				return
+			}
+			if g := globals[v]; g != nil && !libVars[v] {
+				// the variable moves too, and with it every function that mentions it
+				if g.Const {
+					ok = false
+					return
+				}
+				for _, n := range g.Names {
+					libVars[n] = true
+				}
+				walkStmts([]*S{g}, func(*S) {}, func(e *E) {
+					ns := map[string]bool{}
+					typeNames(e.Ty, ns)
+					for n := range ns {
+						addType(n)
+					}
+					switch e.K {
+					case "call", "fnval":
+						addFn(e.Fn)
+					case "new":
+						addType(e.Sty)
+					case "var":
+						if globals[e.Name] != nil && !libVars[e.Name] {
+							ok = false // an initialiser that reads another package-level variable: left alone
+						}
+					}
+				})
 			}
 		}
 		for t := range types {
@@ -288,14 +343,17 @@ func (p *Prog) chooseSplit(r *rand.Rand) *pkgSplit {
 		if nSeeds == 0 {
 			break
 		}
-		saved := map[string]bool{}
+		saved, savedV := map[string]bool{}, map[string]bool{}
 		for k := range lib {
 			saved[k] = true
+		}
+		for k := range libVars {
+			savedV[k] = true
 		}
 		ok = true
 		addFn(f.Name)
 		if !ok {
-			lib = saved
+			lib, libVars = saved, savedV
 			continue
 		}
 		nSeeds--
@@ -325,5 +383,156 @@ func (p *Prog) chooseSplit(r *rand.Rand) *pkgSplit {
 	if !used {
 		return nil
 	}
-	return &pkgSplit{lib: lib}
+	paths := []string{"lib", "app/lib", "x/y/lib", "a/lib"}
+	return &pkgSplit{lib: lib, vars: libVars, path: paths[r.Intn(len(paths))]}
+}
+
+// resolveGlobals marks every variable reference that denotes a package-level variable (E.Global),
+// following Go's scoping: parameters and receivers, declarations from their statement on, the
+// implicit scopes of if / for / switch / range statements, function literals.
+func resolveGlobals(p *Prog) {
+	globals := map[string]bool{}
+	for _, g := range p.Globals {
+		for _, n := range g.Names {
+			globals[n] = true
+		}
+	}
+	type scope map[string]bool
+	var scopes []scope
+	push := func() { scopes = append(scopes, scope{}) }
+	pop := func() { scopes = scopes[:len(scopes)-1] }
+	declare := func(n string) {
+		if n != "" && n != "_" {
+			scopes[len(scopes)-1][n] = true
+		}
+	}
+	local := func(n string) bool {
+		for i := len(scopes) - 1; i >= 0; i-- {
+			if scopes[i][n] {
+				return true
+			}
+		}
+		return false
+	}
+	var stmts func(ss []*S)
+	var expr func(e *E)
+	fn := func(f *Func) {
+		push()
+		declare(f.Recv)
+		for _, n := range f.Params {
+			declare(n)
+		}
+		stmts(f.Body)
+		pop()
+	}
+	expr = func(e *E) {
+		if e == nil {
+			return
+		}
+		if e.K == "var" {
+			e.Global = globals[e.Name] && !local(e.Name)
+		}
+		for _, x := range []*E{e.L, e.R, e.X, e.I, e.Lo, e.Hi} {
+			expr(x)
+		}
+		for _, x := range e.Args {
+			expr(x)
+		}
+		for _, x := range e.Keys {
+			expr(x)
+		}
+		if e.Lit != nil {
+			fn(e.Lit)
+		}
+	}
+	block := func(ss []*S) {
+		push()
+		stmts(ss)
+		pop()
+	}
+	var stmt func(s *S)
+	stmt = func(s *S) {
+		if s == nil {
+			return
+		}
+		switch s.K {
+		case "decl", "declzero":
+			for _, x := range s.Exprs {
+				expr(x)
+			}
+			for _, n := range s.Names {
+				declare(n)
+			}
+			return
+		case "if":
+			push()
+			stmt(s.Init)
+			expr(s.Cond)
+			block(s.Then)
+			if s.HasElse {
+				block(s.Else)
+			}
+			pop()
+			return
+		case "for":
+			push()
+			stmt(s.Init)
+			expr(s.Cond)
+			stmt(s.Post)
+			block(s.Body)
+			pop()
+			return
+		case "range":
+			expr(s.X)
+			push()
+			declare(s.KName)
+			declare(s.VName)
+			block(s.Body)
+			pop()
+			return
+		case "switch":
+			push()
+			stmt(s.Init)
+			expr(s.Tag)
+			for _, c := range s.Cases {
+				for _, x := range c.Vals {
+					expr(x)
+				}
+				block(c.Body)
+			}
+			if s.HasDef {
+				block(s.Def)
+			}
+			pop()
+			return
+		case "block":
+			block(s.Body)
+			return
+		}
+		for _, x := range s.Exprs {
+			expr(x)
+		}
+		for _, x := range s.Lhs {
+			expr(x)
+		}
+		for _, x := range []*E{s.E, s.Cond, s.X, s.Tag, s.M, s.Key, s.Dst} {
+			expr(x)
+		}
+	}
+	stmts = func(ss []*S) {
+		for _, s := range ss {
+			stmt(s)
+		}
+	}
+	for _, f := range p.Funcs {
+		fn(f)
+	}
+	// initialisers of package-level variables see package scope only
+	push()
+	for _, g := range p.Globals {
+		for _, x := range g.Exprs {
+			expr(x)
+		}
+	}
+	pop()
 }
